@@ -212,3 +212,18 @@ def swallowed_failures(ctx, info):
                     out.append((tgt, t.sp))
     return out
 
+
+PUBLIC_MUTATORS = 22  # the public update calls of the API (T-API), counted by hand
+
+
+def public_mutator_floor(ctx, report, infos=None):
+    """anti-vacuity floor that is stable under refactoring: the *public* update
+    calls are all found and classified (how many private helpers exist, and
+    whether an update is implemented directly or by delegation, may change)"""
+    infos = infos or analyse(ctx)
+    pub = [i for i in infos.values() if i.fn.vis == "pub" and i.kind in ("core", "wrapper")]
+    core = [i for i in infos.values() if i.kind == "core"]
+    report.check("FLOOR", "public-mutators", len(pub) >= PUBLIC_MUTATORS, "the %d public update calls are analysed (found %d, %d of all mutators commit directly)" % (PUBLIC_MUTATORS, len(pub), len(core)),
+                 "only %d public functions taking &mut Enr<K> were classified as updates (expected %d)" % (len(pub), PUBLIC_MUTATORS), config=ctx.config)
+    report.check("FLOOR", "core-mutators", len(core) >= 1, "at least one mutator commits a re-signed copy directly (found %d)" % len(core), config=ctx.config)
+
